@@ -599,6 +599,56 @@ Section Proofs.
       - apply bls_complete.
     Qed.
 
+    Lemma Forall_set_nth {A} (P : A -> Prop) (v : A) : forall k l,
+        Forall P l -> P v -> Forall P (set_nth k v l).
+    Proof.
+      induction k as [|k IH]; intros [|x l] Hl Hv.
+      - unfold set_nth. cbn. constructor; [exact Hv|constructor].
+      - rewrite set_nth_0. inversion Hl; subst. constructor; assumption.
+      - unfold set_nth. cbn. constructor; [exact Hv|constructor].
+      - rewrite set_nth_S. inversion Hl; subst. constructor; [assumption|]. apply IH; assumption.
+    Qed.
+
+    (* the same for mask objects used side by side in one session: whatever
+       interleaving of NewMask / Clone / SetBit / SetMask / Merge produced the
+       pool, every object in it aggregates and verifies - any number of times,
+       since aggregation reads the mask and writes nothing *)
+    Theorem bdn_pool_verifies (g1 : bool) pubs (steps : list (pstep q)) (m : bmask q) (h : F) :
+      In m (pool_run q Hcoef pubs steps) ->
+      let a := agg_secret q pubs (bm_bits q m) (Hcoef pubs) in
+      bdn_agg_pubs q m = ROk a /\
+      bdn_agg_sigs q m (honest_sigs q pubs (bm_bits q m) h) = ROk (bls_sign a h) /\
+      bls_verify g1 a h (Some (bls_sign a h)) = true.
+    Proof.
+      intros Hin a.
+      assert (Inv : Forall (fun m => bdn_wf m /\ bm_pubs q m = pubs) (pool_run q Hcoef pubs steps)).
+      { unfold pool_run.
+        assert (G : forall steps pool, Forall (fun m => bdn_wf m /\ bm_pubs q m = pubs) pool ->
+                      Forall (fun m => bdn_wf m /\ bm_pubs q m = pubs) (fold_left (pool_step q Hcoef pubs) steps pool)).
+        { clear. induction steps as [|st steps IH]; intros pool Hp; [exact Hp|].
+          cbn [fold_left]. apply IH. destruct st as [own|k o|k]; cbn [pool_step].
+          - destruct (bdn_new_mask q Hcoef pubs own) as [m0|] eqn:E; [|exact Hp].
+            apply Forall_app. split; [exact Hp|]. constructor; [|constructor].
+            exact (bdn_new_mask_wf pubs own m0 E).
+          - destruct (nth_error pool k) as [m0|] eqn:E; [|exact Hp].
+            apply Forall_set_nth; [exact Hp|].
+            apply nth_error_In in E. rewrite Forall_forall in Hp. destruct (Hp m0 E) as [W P].
+            destruct (bdn_step_wf m0 o W) as [W' P']. split; [exact W'|congruence].
+          - destruct (nth_error pool k) as [m0|] eqn:E; [|exact Hp].
+            apply Forall_app. split; [exact Hp|]. constructor; [|constructor].
+            apply nth_error_In in E. rewrite Forall_forall in Hp. destruct (Hp m0 E) as [W P].
+            destruct (bdn_step_wf m0 BClone W) as [W' P']. split; [exact W'|congruence]. }
+        apply G. constructor. }
+      rewrite Forall_forall in Inv. destruct (Inv m Hin) as [(A & B & C) P].
+      unfold bdn_agg_pubs, bdn_agg_sigs. rewrite A, B, P.
+      rewrite agg_pubs_spec by apply Hcoef_len.
+      rewrite agg_sigs_spec by apply Hcoef_len.
+      repeat split.
+      - f_equal. unfold padd, pzero. fold a. ring.
+      - f_equal. unfold padd, pzero, bls_sign. fold a. ring.
+      - apply bls_complete.
+    Qed.
+
     (* under which key / message the aggregate of mask [bits] verifies *)
     Theorem bdn_accept_iff (g1 : bool) pubs (bits bits' : list bool) (h h' : F) :
       let a := agg_secret q pubs bits (Hcoef pubs) in
